@@ -14,6 +14,7 @@ CONSTANTS
     LandmarkOwnStream = TRUE
     KeepLastDup = TRUE
     ReservedByFullName = TRUE
+    RefuseUnknownType = TRUE
 INIT Init
 NEXT Next
 INVARIANTS TocAddressesRightBytes ChunksTileFile OffsetsUniquePerStreamStart EntriesPreserved DiffIDIsHashOfDecompressed TocDigestIsHashOfTocJSON LosslessIdentity
